@@ -3,8 +3,11 @@
 Harness : the real Engine (EngineHarness, virtual clock) + the real EngineMessageHandlers coroutines.  One *step* is
           "advance the clock, then run { engine.tick } concurrently with { one or two requests }".  The concurrent step
           runs in two real threads under the baton scheduler of vp/harness/sched.py: pre-emption points are the `line`
-          events of openpectus/* frames, the schedule is a list of indices into that event stream, engine._lock is a
-          BatonLock (a blocked acquire hands the baton back).
+          events of openpectus/* frames, the schedule is a list of indices into that event stream, engine._lock and every
+          other lock the code under test creates (Lock / RLock / threading are replaced in all openpectus modules) is a baton
+          lock (a blocked acquire hands the baton back; lock cycles are reported as deadlock).  No wait is unbounded: a step
+          that does not end within 60 s of real time, or a scenario within its limit, is abandoned (SchedulerHang), counted,
+          and ends the shard as a harness error unless the shard has established violations.
 Domain  : engine state reached by a generated prefix (method, input trajectory, Start, 0..N ticks, optional earlier
           requests)  x  1-2 requests (method edit, code injection, control command, cancel, force)  x  0-4 switch points
           (quick: sampled, stratified by tick phase; thorough: additionally ALL single-switch positions of the tick).
@@ -75,7 +78,10 @@ RULE = ("Hypothesis draws a scenario = (method with slow commands, waits, thresh
         "item extends the prefix by up to 12 ticks until one exists; N post ticks). A quarter of the scenarios are of the family "
         "'acceptance depends on the order': a state-dependent control command racing with a tick that changes the run state "
         "(completing tick of a Stop/Restart issued one tick earlier, or a second control command in the same step); half of "
-        "the earlier requests are issued right before the last prefix tick. Tick phases are labelled by the callee the ticking "
+        "the earlier requests are issued right before the last prefix tick. An eighth of the scenarios are of the family 'request "
+        "changes several outputs on the request thread': Set1, Set2, Pause at the head of the method and a cancel of the running "
+        "Pause from the run log (restores all pre-pause outputs at once); the hardware image written in every tick is part of "
+        "the compared effect log, so an image mixing safe and restored values matches no serial order. Tick phases are labelled by the callee the ticking "
         "thread has entered (read_process_image, Tracking.tick, PInterpreter.tick, update_calculated_tags, CommandManager.tick, "
         "notify_tag_updates, write_process_image) and by ownership of engine._lock, not by the source text of Engine.tick; the "
         "code of tick before the lock is taken (phases pre, read) is a pre-emption region like the rest. Per scenario the tick "
